@@ -202,6 +202,10 @@ def handle (toks : List String) : String :=
       let toks := rest.filter (· ≠ "!big")
       if !toks.contains "--" then "bad-op" else
       let (orc, opsT) := splitAtDashes toks
+      -- `[ op … ]`: a concurrent batch.  The handlers and Close() are atomic steps of the model (usersLock), so a batch
+      -- is the sequential run of its ops in SOME order; the lines keep to batches whose outcome does not depend on the
+      -- order (SA.Props.C13: C13_batch_opens_perm, C13_batch_opens_ids), and the model runs the listed order.
+      let opsT := opsT.filter (fun t => t ≠ "[" ∧ t ≠ "]")
       match opsT.mapM parseOp with
       | none => "bad-op"
       | some ops =>
